@@ -78,6 +78,7 @@ class PostprocessManager:
                 "ruff",
                 "check",
                 "--no-cache",
+                "--isolated",
                 "--select=F401",
                 "--fix",
             ]
@@ -103,6 +104,7 @@ class PostprocessManager:
                 "ruff",
                 "check",
                 "--no-cache",
+                "--isolated",
                 "--select=I",
                 "--fix",
             ]
@@ -128,6 +130,7 @@ class PostprocessManager:
                 "ruff",
                 "format",
                 "--no-cache",
+                "--isolated",
             ]
             + [str(t) for t in targets],
             stdout=subprocess.PIPE,
@@ -149,6 +152,7 @@ class PostprocessManager:
                 "ruff",
                 "check",
                 "--no-cache",
+                "--isolated",
                 "--select=F401",
                 "--fix",
                 str(target),
@@ -172,6 +176,7 @@ class PostprocessManager:
                 "ruff",
                 "check",
                 "--no-cache",
+                "--isolated",
                 "--select=I",
                 "--fix",
                 str(target),
@@ -195,6 +200,7 @@ class PostprocessManager:
                 "ruff",
                 "format",
                 "--no-cache",
+                "--isolated",
                 str(target),
             ],
             stdout=subprocess.PIPE,
